@@ -259,10 +259,13 @@ func (r *run) exec() {
 			r.w.Store("src").Put(r.pool[bi].Ref.String(), r.pool[bi].Data)
 		}
 	}
-	for _, bi := range r.cfg.PreDst {
+	for _, bi := range append(append([]int{}, r.cfg.PreDst...), r.cfg.DstOnly...) {
 		if bi >= 0 && bi < len(r.pool) {
 			r.w.Store("dst").Put(r.pool[bi].Ref.String(), r.pool[bi].Data)
 		}
+	}
+	if len(r.cfg.DstOnly) > 0 {
+		out.Reached["validation-shard-with-interleaved-source-and-destination-blobs"]++
 	}
 
 	segStart, segNo := 0, 0
